@@ -407,6 +407,13 @@ func firstLines(s string, n int) string {
 	return out
 }
 
+func hqFaults(sc *scen.Scenario) map[string][]string {
+	if sc.HQ == nil {
+		return nil
+	}
+	return sc.HQ.Faults
+}
+
 func sameClass(prop string, want scen.Violation, c *Case, res, res2 *childResult) (scen.Violation, bool) {
 	vs, _ := violationsOf(prop, c, res, res2)
 	for _, v := range vs {
@@ -487,6 +494,52 @@ func reportViolation(prop string, f found) string {
 				minimised = true
 			} else {
 				i++
+			}
+		}
+		// 2b. remove injected faults that the violation does not need: queue-call faults, then origin faults (sorted keys, bounded)
+		for _, plan := range []map[string][]string{best.Scenario.LQFaults, hqFaults(best.Scenario)} {
+			kinds := make([]string, 0, len(plan))
+			for kind := range plan {
+				kinds = append(kinds, kind)
+			}
+			sort.Strings(kinds)
+			for _, kind := range kinds {
+				if len(plan[kind]) == 0 {
+					continue
+				}
+				sc := cloneScenario(best.Scenario)
+				if sc.LQFaults != nil && len(sc.LQFaults[kind]) > 0 && len(best.Scenario.LQFaults[kind]) > 0 {
+					sc.LQFaults[kind] = nil
+				} else if sc.HQ != nil && sc.HQ.Faults != nil {
+					sc.HQ.Faults[kind] = nil
+				}
+				if try(sc, bestTape) {
+					minimised = true
+				}
+			}
+		}
+		{
+			keys := make([]string, 0, len(best.Scenario.Site))
+			for key, res := range best.Scenario.Site {
+				for _, rp := range res.Resp {
+					if rp.Fault != "" {
+						keys = append(keys, key)
+						break
+					}
+				}
+			}
+			sort.Strings(keys)
+			for i, key := range keys {
+				if i >= 12 {
+					break
+				}
+				sc := cloneScenario(best.Scenario)
+				for j := range sc.Site[key].Resp {
+					sc.Site[key].Resp[j].Fault = ""
+				}
+				if try(sc, bestTape) {
+					minimised = true
+				}
 			}
 		}
 		// 3. shorten the tape (zero the tail)
